@@ -21,6 +21,7 @@ mdl::TA gen_ta(Rng& r, const Pool& pool, const TAOpts& o);
 mdl::TA derive_ta(Rng& r, const Pool& pool, const mdl::TA& a, int kind);   // superset / subset / tweak / copy
 mdl::TA wide_pair_smaller(Rng& r, mdl::TA& bigger);                        // C07 shape: children with several macro-states
 mdl::TA repeat_pair_smaller(Rng& r, mdl::TA& bigger);                      // one state at several child positions, macro-states discovered one after the other
+void permute_syms(Rng& r, mdl::TA& A, mdl::TA& B);                           // drawn bijection on the symbol names of both (registration / BDD code order)
 // a pair (A, B) for inclusion checks: mostly near misses (B = A minus / tweaked / two cross-linked copies), some supersets, some independent
 void gen_incl_pair(Rng& r, const Pool& pool, int max_states, bool sparse, mdl::TA& A, mdl::TA& B);
 
@@ -28,6 +29,8 @@ mdl::FA gen_fa(Rng& r, const std::vector<std::string>& syms, int max_states, boo
 mdl::FA derive_fa(Rng& r, const std::vector<std::string>& syms, const mdl::FA& a, int kind);
 // NFA pair for inclusion checks: a dense nondeterministic bigger automaton (macro-states of several states) and a smaller one that is mostly a near miss of it
 void gen_fa_incl_pair(Rng& r, const std::vector<std::string>& sa, const std::vector<std::string>& sb, int max_states, mdl::FA& A, mdl::FA& B);
+
+void monadic_pair(Rng& r, mdl::TA& A, mdl::TA& B);                           // a word-automaton pair embedded as monadic tree automata (unary rules, leaf rules for start states)
 
 vsim::Env gen_env(Rng& r, bool allow_never = true);
 
